@@ -11,16 +11,18 @@ from vlib import VERIF, tla_val
 
 PATH = os.path.join(VERIF, "universe", "bql.json")
 
-INSTANTS = [  # rank = index + 1, canonical RFC3339Nano spelling (UTC)
+INSTANTS = [  # rank = index + 1, canonical RFC3339Nano spelling (UTC), strictly increasing
     "2019-03-01T00:00:00Z",
     "2020-01-01T00:00:00Z",
+    "2020-01-01T01:00:00Z",
     "2020-06-01T12:30:00.5Z",
+    "2021-11-11T11:11:11Z",
     "2021-11-11T11:11:11.000000011Z",
 ]
-# other spellings of the same instants (other zones) used in query texts
-ALT_SPELLINGS = {2: "2020-01-01T02:00:00+02:00", 3: "2020-06-01T05:30:00.5-07:00"}
+# other spellings of the same instants (other zones) used in query texts and for some stored anchors
+ALT_SPELLINGS = {2: "2020-01-01T02:00:00+02:00", 4: "2020-06-01T05:30:00.5-07:00"}
 
-STR = ["/u", "/v", "a", "b", "c", "p", "q", "r", "ab", "B", "_"]  # index+1 = string id
+STR = ["/u", "/v", "a", "b", "c", "p", "q", "r", "ab", "B", "_", "s"]  # index+1 = string id
 
 
 def sid(s):
@@ -28,10 +30,19 @@ def sid(s):
 
 
 NODES = [("/u", "a"), ("/u", "b"), ("/v", "a"), ("/u", "c"), ("/v", "ab")]
-PREDS = [  # (id, tmp, rank)
-    ("p", False, 0), ("p", True, 2), ("p", True, 3), ("q", False, 0), ("q", True, 2), ("q", True, 4),
+PREDS = [  # (id, tmp, rank[, stored spelling of the anchor])
+    ("p", False, 0), ("p", True, 2), ("p", True, 4), ("q", False, 0), ("q", True, 2), ("q", True, 6),
     ("r", True, 1), ("r", False, 0), ("p", True, 1), ("a", False, 0), ("a", True, 2),
+    ("s", True, 2, "2020-01-01T02:00:00+02:00"),  # 12: stored with a +02:00 anchor
+    ("s", True, 3), ("s", True, 5), ("s", True, 6),  # 13, 14, 15
 ]
+
+
+def pred_anchor(i):
+    e = PREDS[i - 1]
+    if not e[1]:
+        return ""
+    return e[3] if len(e) > 3 else INSTANTS[e[2] - 1]
 
 
 def N(i):
@@ -84,6 +95,12 @@ TRIPLES = [  # (s, p, o)
     (1, 10, N(2)),   # 23 /u<a> a@[]   /u<b>   (predicate id = a node id)
     (2, 11, X("ab")),  # 24 /u<b> a@[i2] "ab"^^text
     (5, 4, I(2)),    # 25 /v<ab> q@[] 2
+    (1, 12, I(1)),   # 26 /u<a> s@[i2 (+02:00)] 1
+    (1, 13, I(2)),   # 27 /u<a> s@[i3] 2
+    (1, 14, I(-3)),  # 28 /u<a> s@[i5] -3
+    (2, 15, I(-5)),  # 29 /u<b> s@[i6] -5
+    (2, 13, F(-6)),  # 30 /u<b> s@[i3] -1.5
+    (2, 4, F(-6)),   # 31 /u<b> q@[] -1.5
 ]
 
 
@@ -92,10 +109,14 @@ def node_text(i):
     return "%s<%s>" % (t, d)
 
 
-def pred_text(i, alt=False):
-    d, tmp, n = PREDS[i - 1]
+def pred_text(i, alt=False, stored=False):
+    """query text of a predicate constant (alt: other zone); stored=True: the printed form of the
+    stored value (its own anchor spelling), used for the printed-form ranks"""
+    d, tmp, n = PREDS[i - 1][:3]
     if not tmp:
         return '"%s"@[]' % d
+    if stored:
+        return '"%s"@[%s]' % (d, pred_anchor(i))
     spell = ALT_SPELLINGS[n] if alt and n in ALT_SPELLINGS else INSTANTS[n - 1]
     return '"%s"@[%s]' % (d, spell)
 
@@ -142,7 +163,7 @@ def universe():
         "instants": INSTANTS,
         "str": STR,
         "nodes": [{"type": t, "id": d} for t, d in NODES],
-        "preds": [{"id": d, "tmp": tmp, "n": n, "anchor": INSTANTS[n - 1] if tmp else ""} for d, tmp, n in PREDS],
+        "preds": [{"id": e[0], "tmp": e[1], "n": e[2], "anchor": pred_anchor(i + 1)} for i, e in enumerate(PREDS)],
         "triples": [{"s": s, "p": p, "o": o} for s, p, o in TRIPLES],
     }
 
@@ -154,11 +175,11 @@ def write_json():
 
 def bqlu_tla():
     npr = ranks([node_text(i + 1) for i in range(len(NODES))])
-    ppr = ranks([pred_text(i + 1) for i in range(len(PREDS))])
+    ppr = ranks([pred_text(i + 1, stored=True) for i in range(len(PREDS))])
     spr = ranks(STR)
     xpr = ranks(['"%s"^^type:text' % s for s in STR])
     node = [{"ty": sid(t), "id": sid(d), "pr": npr[i]} for i, (t, d) in enumerate(NODES)]
-    pred = [{"id": sid(d), "tmp": tmp, "n": n, "pr": ppr[i]} for i, (d, tmp, n) in enumerate(PREDS)]
+    pred = [{"id": sid(e[0]), "tmp": e[1], "n": e[2], "pr": ppr[i]} for i, e in enumerate(PREDS)]
     tri = [{"s": s, "p": p, "o": o} for s, p, o in TRIPLES]
     strpr = [{"s": spr[i], "x": xpr[i]} for i in range(len(STR))]
     return "\n".join([
